@@ -20,7 +20,7 @@ ASSUMPTIONS = ["cells are tetrahedra forming a conforming complex whose boundary
 KINDS = ["face_to_cells", "cell_to_face", "cell_to_cell", "edge_to_cell", "edge_to_face", "vertex_to_cell", "cell_to_edge",
          "in_cell_index", "in_cell_face_index", "common_face", "other_face_side", "is_face_on_border", "is_face_on_border_v",
          "is_edge_on_border", "is_edge_on_border_uv", "is_vertex_on_border", "border_faces", "border_edges", "border_vertices",
-         "cell_to_vertex", "face_id", "edge_id", "clear_caches", "n_F2C", "is_tetrahedral"]
+         "cell_to_vertex", "face_id", "edge_id", "clear_caches", "n_F2C", "is_tetrahedral", "poke_invalid"]
 
 
 @st.composite
@@ -242,6 +242,16 @@ def do_query(m, ref, info, sort_on, q, ctx, where):
         ok, r = call(C.edge_id, u, v)
         if ok:
             ctx.check(r == e, sig, f"{where}: edge_id({u},{v}) = {r!r}, expected {e}")
+    elif kind == "poke_invalid":
+        bad = [(C.face_to_cells, (nF + 1 + a % 3,)), (C.cell_to_face, (nC + a % 2,)), (C.cell_to_cell, (nC + 1,)), (C.edge_to_cell, (nE + 2,)),
+               (C.edge_to_face, (nE,)), (C.vertex_to_cell, (nV + 3,)), (C.cell_to_edge, (nC,)), (C.in_cell_index, (nC + 1, 0)),
+               (C.other_face_side, (nC, nF)), (C.common_face, (nC, nC + 1)), (m.is_face_on_border, (nF + 4,)), (m.is_edge_on_border, (nE + 1,)),
+               (m.is_vertex_on_border, (nV + 2,)), (C.face_id, (nV, nV + 1, nV + 2))]
+        f_, args_ = bad[b % len(bad)]
+        try:
+            f_(*args_)      # whatever it answers or raises, later answers must not change
+        except Exception:
+            pass
     elif kind == "clear_caches":
         call(C.clear)          # documented reset; later answers must not change
     elif kind == "n_F2C":
@@ -373,6 +383,8 @@ def fn(case, ctx):
             qs = [[kind, c, b] for c in range(nC) for b in (1, 2, 4, 5)] + [[kind, c, 3 * rnd.randrange(50)] for c in range(nC)]
         elif kind == "n_F2C":
             qs = [[kind, f, 0] for f in range(nF)]
+        elif kind == "poke_invalid":
+            qs = [[kind, rnd.randrange(12), rnd.randrange(40)] for _ in range(3)]
         else:
             qs = [[kind, 0, 0]]
         for q in qs:
